@@ -25,10 +25,10 @@ Atoms == { JNull, JTrue, JFalse,
 \* operands of the binary wrappers: the values that differ only by bool<->0/1 and 1<->1.0
 Small == { JTrue, JFalse, JInt(<<>>), JInt(<<0>>), JFloat(FALSE, <<0>>), JStr(S_a) }
 
-Unary == {"arr1", "obj1"}
+Unary == {"arr1", "obj1", "objb"}        \* [x], {"a": x}, {"b": x}: objects of equal size with different key sets
 Binary == {"arrL", "arrR", "objAB", "objBA"}
 
-Wrap1(w, x) == IF w = "arr1" THEN JArr(<<x>>) ELSE JObj(<<S_a>>, <<x>>)
+Wrap1(w, x) == IF w = "arr1" THEN JArr(<<x>>) ELSE IF w = "obj1" THEN JObj(<<S_a>>, <<x>>) ELSE JObj(<<S_b>>, <<x>>)
 Wrap2(w, x, y) ==
   CASE w = "arrL"  -> JArr(<<x, y>>)
     [] w = "arrR"  -> JArr(<<y, x>>)
